@@ -1,2 +1,3 @@
 SPECIFICATION Spec
 CONSTANTS D = 9
+ Small = FALSE
